@@ -221,6 +221,11 @@ def corpus():
         st(d10, mtime=2000000000, ims='rfc1123', delta=-1), st(d10, mtime=4000000000, ims='rfc1123', delta=0),
         st(d10, mtime=2000000000, ims='rfc850', delta=86400, method='HEAD'), st(d10, mtime=2000000000, ims='asctime', delta=0, rng='bytes=0-3'),
         st(d10, mtime=2000000000, ims='rfc1123', delta=0, via='app'), st(d10, mtime=1700000000, ims='rfc1123', delta=-1, tz='MSK-3'),
+        # an unparsable date is no date, whatever the file's mtime (seeded change C17/19): epoch and pre-1970 files
+        st(d10, mtime=0, ims='garbage'), st(d10, mtime=0, ims='0'), st(d10, mtime=0, ims=';'), st(d10, mtime=0, ims='Thu, 32 Jan 2099 00:00:00 GMT'),
+        st(d10, mtime=-5, ims='garbage'), st(d10, mtime=-86400 * 400, ims='0'), st(d10, mtime=-1, ims='01 Jan', rng='bytes=0-3'),
+        st(d10, mtime=0, ims='garbage', via='app'), st(d10, mtime=-5, ims='rfc1123', delta=0), st(d10, mtime=-5, ims='rfc1123', delta=-1),
+        st(d10, mtime=-5), st(d10, mtime=-5, rng='bytes=1-2'),
         st(d10, ims=''),                               # F20: an empty If-Modified-Since header crashed (TypeError)
         st(d10, ims='', rng='bytes=0-3'), st(d10, ims='garbage'), st(d10, ims=' ; x'), st(d10, ims=';'), st(d10, ims=' '),
         st(d10, ims='Thu, 01 Jan 2099 00:00:00 GMT'), st(d10, ims='Thu, 32 Jan 2099 00:00:00 GMT'),
@@ -340,13 +345,15 @@ def gen(rng, n):
                 ims = rng.choice(['', ' ', ';', 'garbage', 'Thu, 01 Jan 2099 00:00:00 GMT', 'Thu, 01 Jan 1980 00:00:00 GMT',
                                   'Thu, 01 Jan 2099 00:00:00 +0100', '01 Jan 2099', 'Thu, 01 Jan 2099 25:00:00 GMT', '1700000000',
                                   'Thu, 01 Jan 2099 00:00:00 GMT; x', '; Thu, 01 Jan 2099 00:00:00 GMT', '\xa0Thu, 01 Jan 2099 00:00:00 GMT\x85'])
-            mtime = rng.choice([1700000000, 0, 0, 1, 2, 60, 86400 * 365, 1700000000 + rng.randrange(10 ** 6),
+            if ims is None and rng.random() < 0.12:
+                ims = rng.choice(JUNK_IMS)
+            mtime = rng.choice([1700000000, 0, 0, 1, 2, 60, -1, -5, -86400 * 365, 86400 * 365, 1700000000 + rng.randrange(10 ** 6),
                                 2000000000, 2000000000 + rng.randrange(10 ** 6), 4000000000])   # the last three: after the server clock
             if delta is not None and rng.random() < 0.25:
                 delta = rng.choice([10 * 365 * 86400, 40 * 365 * 86400, 365 * 86400])            # far later than the file
             if delta is not None and mtime < 100:
                 delta = rng.choice([0, 0, 1, -1, -mtime, 60, 86400])   # dates at and around the epoch
-            frac = rng.choice([0, 0, 1, 500000000, 999999999])
+            frac = rng.choice([0, 0, 1, 500000000, 999999999]) if mtime >= 0 else 0
             tz = rng.choice(TZS) if (ims is not None and rng.random() < 0.5) else None
             via = rng.choice(['direct', 'direct', 'direct', 'app', 'app', 'app2', 'app2', 'fresh'])
             setup = rng.choice([None, None, {}, dict(max_memfile_size=4096), dict(debug=False)]) if via != 'app2' else None
@@ -728,6 +735,8 @@ def decode(out, case):
                 opened=int(opened), body=body, ims_arg=ims_arg)
 
 
+JUNK_IMS = ['', ' ', ';', 'garbage', '0', '01 Jan', ' ; x', '1700000000',
+            '; Thu, 01 Jan 2099 00:00:00 GMT', 'yesterday', '-1', 'Thu']
 GRAMMAR = re.compile(r'^bytes=(\d*)-(\d*)(?:,.*)?$', re.S)
 
 
@@ -835,6 +844,8 @@ def oracle(case, obs):
     must304 = case.get('delta') is not None and case['mtime'] + case['delta'] >= mtime_seen(case)
     if case.get('delta') is not None and case['mtime'] + case['delta'] < mtime_seen(case) and stt == 304:
         return '304 although the date is older than the file'
+    if case.get('delta') is None and hdr is not None and hdr in JUNK_IMS and stt == 304:
+        return 'If-Modified-Since %r is not a date but the answer is 304' % hdr
     if must304:
         if stt != 304:
             return 'If-Modified-Since %r is not older than the file but status is %d' % (hdr, stt)
